@@ -328,6 +328,7 @@ def run(ck: common.Check):
     ck.corr_run("load_order01_exact", ["Acryo.C02.Model"], terms, prelude=prelude, shard=40 if ck.tier == "quick" else 120,
                 observable=True, describe=lambda c: key_of(c), classes=classes)
     oracle_generic(ck, rng, 40 if ck.tier == "quick" else 600)
+    oracle_batch_interleaved(ck, np.random.default_rng(ck.seed + 20202), 6 if ck.tier == "quick" else 60)
 
 
 def oracle_generic(ck, rng, n):
@@ -365,6 +366,57 @@ def oracle_generic(ck, rng, n):
         if not ok:
             ck.violation(what="generic pose: " + detail, inp=dict(c, tomo="gaussian-filtered normal(seed)"),
                          key=key_of(c, detail), oracle="generic_rotation_reference", measured=detail)
+
+
+def oracle_batch_interleaved(ck, rng, n):
+    """a batch of several tomograms (one registered without molecules, ids out of order, numpy- and dask-backed) whose molecule table
+    has been permuted: sub-volume i, through every loading entry point, is the one a single loader of molecule i's own tomogram returns
+    (that single-loader result is what the Coq model and the reference oracle above check)"""
+    import dask.array as da
+    from acryo import SubtomogramLoader, BatchLoader, Molecules
+    from scipy.spatial.transform import Rotation
+    from scipy import ndimage as ndi
+    for it in range(n):
+        order = int(rng.choice([0, 1, 3])); scale = float(rng.choice([1.0, 0.5, 2.0])); shape = tuple(int(x) for x in rng.integers(3, 7, size=3))
+        cs = bool(it % 2)
+        nt = int(rng.integers(2, 5))
+        ids = [int(x) for x in rng.permutation(9)[:nt]]
+        b = BatchLoader(order=order, scale=scale, output_shape=shape, corner_safe=cs)
+        tomos, want = {}, []
+        empty_at = int(rng.integers(0, nt)) if it % 3 == 0 else -1
+        for j, iid in enumerate(ids):
+            t = (ndi.gaussian_filter(rng.normal(size=(14, 15, 16)), 1.0) * 10 + 100 * (j + 1)).astype(np.float32)
+            tomos[iid] = t
+            nm = 0 if j == empty_at else int(rng.integers(1, 4))
+            pos = np.stack([rng.uniform(5, d - 6, size=nm) for d in t.shape], axis=1) * scale if nm else np.zeros((0, 3))
+            rot = Rotation.random(nm, random_state=int(rng.integers(0, 2**31))) if nm else None
+            mol = Molecules(pos, rot, features={"t": [iid] * nm, "r": list(range(nm))})
+            b.add_tomogram(da.from_array(t, chunks=(7, 8, 5)) if (it + j) % 2 else t, mol, image_id=iid)
+            for r_ in range(nm):
+                want.append((iid, r_, np.asarray(SubtomogramLoader(t, mol.subset([r_]), order=order, scale=scale, output_shape=shape, corner_safe=cs).load(0))))
+        perm = [int(x) for x in rng.permutation(len(want))]
+        ld = b.replace(molecules=b.molecules.subset(perm))
+        want = [want[p_] for p_ in perm]
+        info = {"iteration": it, "seed": ck.seed, "ids": ids, "tomogram_without_molecules": (ids[empty_at] if empty_at >= 0 else None), "order": order, "scale": scale,
+                "shape": list(shape), "corner_safe": cs, "molecule_image_ids": [w[0] for w in want]}
+        bad = []
+        try:
+            got = {"asnumpy": np.asarray(ld.asnumpy()), "construct_dask": np.asarray(ld.construct_dask().compute()),
+                   "load_iter": np.stack([np.asarray(x) for x in ld.load_iter()]), "load": np.stack([np.asarray(ld.load(i)) for i in range(len(want))]),
+                   "load(list)": np.asarray(ld.load(list(range(len(want)))))}
+            for name, arr in got.items():
+                if arr.shape != (len(want),) + shape:
+                    bad.append(f"{name}: shape {arr.shape}")
+                    continue
+                wrong = [i for i, w in enumerate(want) if not np.allclose(arr[i], w[2], atol=1e-4)]
+                if wrong:
+                    bad.append(f"{name}: sub-volumes {wrong} are not those of their molecules' own tomograms")
+        except Exception as e:  # noqa
+            bad.append(f"raised {type(e).__name__}: {e}")
+        ck.oracle_count("batch_interleaved_load", 1, 1)
+        if bad:
+            ck.violation(what="batch loader with a permuted molecule table: " + "; ".join(bad[:3]), inp=info, key={"site": "batch-interleaved", "symptom": bad[0].split(":")[0]},
+                         oracle="batch_interleaved_load")
 
 
 def replay(data):
